@@ -691,7 +691,7 @@ def replay(rj):
         elif rj["kind"] == "early-close":
             o = early_close_case(ninja)
         elif rj["kind"] == "slow-to-die":
-            o = _slow_to_die_case((rj["signal"], ninja))
+            o = _slow_to_die_case((rj["signal"], ninja, rj.get("variant") == 3))
         elif rj["kind"] == "signal-outside-wait":
             o = _signal_outside_wait_case((rj["signal"], ninja, rj.get("variant", 0)))
         elif rj["kind"] == "signal":
@@ -793,9 +793,11 @@ default b
 
 
 def _slow_to_die_case(args):
-    signame, ninja = args
+    signame, ninja = args[:2]
+    twice = len(args) > 2 and args[2]     # an impatient second signal while ninja waits for the command to be gone
     root = tempfile.mkdtemp(prefix="rbdie.", dir=rb.SHM)
-    out = {"signal": signame, "scenario": "command_slow_to_die", "wait": 0, "partial": True, "problems": [], "variant": 2}
+    out = {"signal": signame, "scenario": "command_slow_to_die" + ("_signalled_twice" if twice else ""), "wait": 0, "partial": True, "problems": [],
+           "variant": 3 if twice else 2}
     try:
         with open(os.path.join(root, "build.ninja"), "w") as f:
             f.write(SLOW_TO_DIE_MANIFEST)
@@ -806,6 +808,10 @@ def _slow_to_die_case(args):
             time.sleep(0.01)
         time.sleep(0.1)
         os.kill(p.pid, getattr(signal, signame))
+        if twice:
+            time.sleep(0.25)
+            if p.poll() is None:
+                os.kill(p.pid, getattr(signal, signame))
         try:
             p.wait(timeout=20)
         except subprocess.TimeoutExpired:
@@ -815,7 +821,7 @@ def _slow_to_die_case(args):
         t_exit = time.time()
         out["exit"] = p.returncode
         if p.returncode != 130 and not out["problems"]:
-            out["problems"].append("exit status %s instead of 130" % p.returncode)
+            out["problems"].append("exit status %s instead of 130%s" % (p.returncode, " (the signal was sent a second time while ninja was winding down)" if twice else ""))
         time.sleep(1.5)   # whatever the dying command still had to write has been written by now
         if os.path.exists(os.path.join(root, "a")):
             out["problems"].append("the output of the interrupted command exists %.1f s after ninja exited (%r): ninja did not wait for the "
@@ -832,14 +838,14 @@ def _slow_to_die_case(args):
 def slow_to_die():
     ninja, _ = rb.build_tools()
     with multiprocessing.Pool(3) as pool:
-        return pool.map(_slow_to_die_case, [(s, ninja) for s in ("SIGINT", "SIGTERM", "SIGHUP")])
+        return pool.map(_slow_to_die_case, [(s, ninja, tw) for s in ("SIGINT", "SIGTERM", "SIGHUP") for tw in (False, True)])
 
 
 def c07_process_level(c):
     for p in slow_to_die():
         if p["problems"]:
             c.violation("C07/process-level %s, a command that is slow to die: %s" % (p["signal"], "; ".join(p["problems"])),
-                        {"engine": "rb", "kind": "slow-to-die", "signal": p["signal"], "variant": 2, "problems": p["problems"]})
+                        {"engine": "rb", "kind": "slow-to-die", "signal": p["signal"], "variant": p["variant"], "problems": p["problems"]})
     for p in signal_outside_wait():
         if p["problems"]:
             c.violation("C07/process-level %s: %s" % (p["signal"], "; ".join(p["problems"])),
